@@ -1117,6 +1117,8 @@ def run(ctx: Ctx) -> None:
 
 # ---------------------------------------------------------------------------
 WITNESSES = [
+    {"name": "seeded-C16-12", "file": "utils/derivatives/derivatives_approx.py", "old": "from numpy import amax\nfrom numpy import arange\nfrom numpy import atleast_2d\nfrom numpy import concatenate\nfrom numpy import divide\nfrom numpy import ndarray\nfrom numpy import zeros\n\nLOGGER = logging.getLogger(__name__)\n\n\n# TODO: API: rename to JacobianApproximator?\nclass DisciplineJacApprox:\n    \"\"\"Approximates a discipline Jacobian using finite differences or Complex step.\"\"\"\n\n    approximator: BaseGradientApproximator | None\n    \"\"\"The gradient approximation method.\"\"\"\n\n    generator_class: ClassVar[type[DisciplineAdapterGenerator]] = (\n        DisciplineAdapterGenerator\n    )\n    \"\"\"The generator class used to create ``MDOFunction`` from an ``Discipline``.\"\"\"\n\n    def __init__(\n        self,\n        discipline: BaseDiscipline,\n        approx_method: ApproximationMode = ApproximationMode.FINITE_DIFFERENCES,\n        step: Number | Iterable[Number] = 1e-7,\n        parallel: bool = False,\n        n_processes: int = N_CPUS,\n        use_threading: bool = False,\n        wait_time_between_fork: float = 0,\n    ) -> None:\n        \"\"\"\n        Args:\n            discipline: The discipline\n                for which the Jacobian approximation shall be made.\n            approx_method: The approximation method,\n                either ``complex_step`` or ``finite_differences``.\n            step: The differentiation step. The ``finite_differences`` takes either\n                a float or an iterable of floats with the same length as the inputs.\n                The ``complex_step`` method takes either a complex or a float as input.\n            parallel: Whether to differentiate the discipline in parallel.\n            n_processes: The maximum simultaneous number of threads,\n                if ``use_threading`` is True, or processes otherwise,\n                used to parallelize the execution.\n            use_threading: Whether to use threads instead of processes\n                to parallelize the execution;\n                multiprocessing will copy (serialize) all the disciplines,\n                while threading will share all the memory\n                This is important to note\n                if you want to execute the same discipline multiple times,\n                you shall use multiprocessing.\n            wait_time_between_fork: The time waited between two forks\n                of the process / thread.\n        \"\"\"  # noqa:D205 D212 D415\n        self.discipline = discipline\n        self.approx_method = approx_method\n        self.step = step\n        self.generator = self.generator_class(discipline)\n        self.func = None\n        self.approximator = None\n        self.auto_steps = {}\n        self.__par_args = {\n            \"n_processes\": n_processes,\n            \"use_threading\": use_threading,\n            \"wait_time_between_fork\": wait_time_between_fork,\n        }\n        self.__parallel = parallel\n\n    def _create_approximator(\n        self,\n        output_names: Sequence[str],\n        input_names: Sequence[str],\n    ) -> None:\n        \"\"\"Create the Jacobian approximation class.\n\n        Args:\n            input_names: The names of the inputs used to differentiate the outputs.\n            output_names: The names of the outputs to be differentiated.\n\n        Raises:\n            ValueError: If the Jacobian approximation method is unknown.\n        \"\"\"\n        self.func = self.generator.get_function(input_names, output_names)\n        self.approximator = GradientApproximatorFactory().create(\n            self.approx_method,\n            self.func.evaluate,\n            step=self.step,\n            parallel=self.__parallel,\n            **self.__par_args,\n        )\n\n    def auto_set_step(\n        self,\n        output_names: Sequence[str],\n        input_names: Sequence[str],\n        print_errors: bool = True,\n        numerical_error: float = EPSILON,\n    ) -> tuple[ndarray, dict[str, ndarray]]:\n        r\"\"\"Compute the optimal step.\n\n        Require a first evaluation of the perturbed functions values.\n\n        The optimal step is reached when the truncation error\n        (cut in the Taylor development),\n        and the numerical cancellation errors\n        (round-off when doing :math:`f(x+step)-f(x))` are equal.\n\n        Args:\n            input_names: The names of the inputs used to differentiate the outputs.\n            output_names: The names of the outputs to be differentiated.\n            print_errors: Whether to log the cancellation\n                and truncation error estimates.\n            numerical_error: The numerical error\n                associated to the calculation of :math:`f`.\n                By default, Machine epsilon (appx 1e-16),\n                but can be higher.\n                when the calculation of :math:`f` requires a numerical resolution.\n\n        See Also:\n            https://en.wikipedia.org/wiki/Numerical_differentiation\n            and *Numerical Algorithms and Digital Representation*,\n            Knut Morken, Chapter 11, \"Numerical Differentiation\"\n\n        Returns:\n            The Jacobian of the function.\n        \"\"\"\n        self._create_approximator(output_names, input_names)\n\n        x_vect = self._prepare_xvect(\n            input_names, self.discipline.io.input_grammar.defaults\n        )\n        with self.__set_zero_cache_tol():\n            steps_opt, errors = self.approximator.compute_optimal_step(\n                x_vect, numerical_error=numerical_error\n            )\n\n        if print_errors:\n            LOGGER.info(\n                \"Set optimal step for finite differences. \"\n                \"Estimated approximation errors =\"\n            )\n            LOGGER.info(errors)\n\n        data = self.discipline.io.input_grammar.defaults or self.discipline.io.data\n        names_to_slices = (\n            self.discipline.io.input_grammar.data_converter.compute_names_to_slices(\n                input_names,\n                data,\n            )[0]\n        )\n\n        self.auto_steps = (\n            self.discipline.io.input_grammar.data_converter.convert_array_to_data(\n                steps_opt, names_to_slices\n            )\n        )\n\n        return errors, self.auto_steps\n\n    @contextmanager\n    def __set_zero_cache_tol(self) -> None:\n        \"\"\"A context manager to temporary set the discipline cache tolerance to zero.\"\"\"\n        if self.discipline.cache is not None:\n            old_cache_tol = self.discipline.cache.tolerance\n            self.discipline.cache.tolerance = 0.0\n            yield\n            self.discipline.cache.tolerance = old_cache_tol\n        else:\n            yield\n\n    def _prepare_xvect(\n        self,\n        input_names: Iterable[str],\n        data: DisciplineData = READ_ONLY_EMPTY_DICT,\n    ) -> ndarray:\n        \"\"\"Convert an input data mapping into an input array.\n\n        Args:\n            input_names: The names of the inputs to be used for the differentiation.\n            data: The input data mapping.\n                If empty, use the local data of the discipline.\n\n        Returns:\n            The input array.\n        \"\"\"\n        if not data:\n            data = self.discipline.io.data\n\n        return self.discipline.io.input_grammar.data_converter.convert_data_to_array(\n            input_names,\n            data,\n        )\n\n    def compute_approx_jac(\n        self,\n        output_names: Iterable[str],\n        input_names: Iterable[str],\n        x_indices: Sequence[int] = (),\n    ) -> dict[str, dict[str, ndarray]]:\n        \"\"\"Approximate the Jacobian.\n\n        Args:\n            output_names: The names of the outputs to be differentiated.\n            input_names: The names of the inputs used to differentiate the outputs.\n            x_indices: The components of the input vector\n                to be used for the differentiation.\n                If empty, use all the components.\n\n        Returns:\n            The approximated Jacobian.\n        \"\"\"\n        self._create_approximator(output_names, input_names)\n\n        if self.auto_steps and all(key in self.auto_steps for key in input_names):\n            step = (\n                self.discipline.io.input_grammar.data_converter.convert_data_to_array(\n                    input_names,\n                    self.auto_steps,\n                )\n            )\n        else:\n            step = self.step\n\n        x_vect = self._prepare_xvect(input_names, self.discipline.io.data)\n\n        if isinstance(step, Sized) and 1 < len(step) != len(x_vect):\n            msg = f\"Inconsistent step size, expected {x_vect.size} got {len(step)}.\"\n            raise ValueError(msg)\n\n        with self.__set_zero_cache_tol():\n            flat_jac = atleast_2d(\n", "new": "from numpy import amax\nfrom numpy import amin\nfrom numpy import arange\nfrom numpy import atleast_2d\nfrom numpy import concatenate\nfrom numpy import divide\nfrom numpy import ndarray\nfrom numpy import zeros\n\nLOGGER = logging.getLogger(__name__)\n\n\n# TODO: API: rename to JacobianApproximator?\nclass DisciplineJacApprox:\n    \"\"\"Approximates a discipline Jacobian using finite differences or Complex step.\"\"\"\n\n    approximator: BaseGradientApproximator | None\n    \"\"\"The gradient approximation method.\"\"\"\n\n    generator_class: ClassVar[type[DisciplineAdapterGenerator]] = (\n        DisciplineAdapterGenerator\n    )\n    \"\"\"The generator class used to create ``MDOFunction`` from an ``Discipline``.\"\"\"\n\n    def __init__(\n        self,\n        discipline: BaseDiscipline,\n        approx_method: ApproximationMode = ApproximationMode.FINITE_DIFFERENCES,\n        step: Number | Iterable[Number] = 1e-7,\n        parallel: bool = False,\n        n_processes: int = N_CPUS,\n        use_threading: bool = False,\n        wait_time_between_fork: float = 0,\n    ) -> None:\n        \"\"\"\n        Args:\n            discipline: The discipline\n                for which the Jacobian approximation shall be made.\n            approx_method: The approximation method,\n                either ``complex_step`` or ``finite_differences``.\n            step: The differentiation step. The ``finite_differences`` takes either\n                a float or an iterable of floats with the same length as the inputs.\n                The ``complex_step`` method takes either a complex or a float as input.\n            parallel: Whether to differentiate the discipline in parallel.\n            n_processes: The maximum simultaneous number of threads,\n                if ``use_threading`` is True, or processes otherwise,\n                used to parallelize the execution.\n            use_threading: Whether to use threads instead of processes\n                to parallelize the execution;\n                multiprocessing will copy (serialize) all the disciplines,\n                while threading will share all the memory\n                This is important to note\n                if you want to execute the same discipline multiple times,\n                you shall use multiprocessing.\n            wait_time_between_fork: The time waited between two forks\n                of the process / thread.\n        \"\"\"  # noqa:D205 D212 D415\n        self.discipline = discipline\n        self.approx_method = approx_method\n        self.step = step\n        self.generator = self.generator_class(discipline)\n        self.func = None\n        self.approximator = None\n        self.auto_steps = {}\n        self.__par_args = {\n            \"n_processes\": n_processes,\n            \"use_threading\": use_threading,\n            \"wait_time_between_fork\": wait_time_between_fork,\n        }\n        self.__parallel = parallel\n\n    def _create_approximator(\n        self,\n        output_names: Sequence[str],\n        input_names: Sequence[str],\n    ) -> None:\n        \"\"\"Create the Jacobian approximation class.\n\n        Args:\n            input_names: The names of the inputs used to differentiate the outputs.\n            output_names: The names of the outputs to be differentiated.\n\n        Raises:\n            ValueError: If the Jacobian approximation method is unknown.\n        \"\"\"\n        self.func = self.generator.get_function(input_names, output_names)\n        self.approximator = GradientApproximatorFactory().create(\n            self.approx_method,\n            self.func.evaluate,\n            step=self.step,\n            parallel=self.__parallel,\n            **self.__par_args,\n        )\n\n    def auto_set_step(\n        self,\n        output_names: Sequence[str],\n        input_names: Sequence[str],\n        print_errors: bool = True,\n        numerical_error: float = EPSILON,\n    ) -> tuple[ndarray, dict[str, ndarray]]:\n        r\"\"\"Compute the optimal step.\n\n        Require a first evaluation of the perturbed functions values.\n\n        The optimal step is reached when the truncation error\n        (cut in the Taylor development),\n        and the numerical cancellation errors\n        (round-off when doing :math:`f(x+step)-f(x))` are equal.\n\n        Args:\n            input_names: The names of the inputs used to differentiate the outputs.\n            output_names: The names of the outputs to be differentiated.\n            print_errors: Whether to log the cancellation\n                and truncation error estimates.\n            numerical_error: The numerical error\n                associated to the calculation of :math:`f`.\n                By default, Machine epsilon (appx 1e-16),\n                but can be higher.\n                when the calculation of :math:`f` requires a numerical resolution.\n\n        See Also:\n            https://en.wikipedia.org/wiki/Numerical_differentiation\n            and *Numerical Algorithms and Digital Representation*,\n            Knut Morken, Chapter 11, \"Numerical Differentiation\"\n\n        Returns:\n            The Jacobian of the function.\n        \"\"\"\n        self._create_approximator(output_names, input_names)\n\n        x_vect = self._prepare_xvect(\n            input_names, self.discipline.io.input_grammar.defaults\n        )\n        with self.__set_zero_cache_tol(self.step):\n            steps_opt, errors = self.approximator.compute_optimal_step(\n                x_vect, numerical_error=numerical_error\n            )\n\n        if print_errors:\n            LOGGER.info(\n                \"Set optimal step for finite differences. \"\n                \"Estimated approximation errors =\"\n            )\n            LOGGER.info(errors)\n\n        data = self.discipline.io.input_grammar.defaults or self.discipline.io.data\n        names_to_slices = (\n            self.discipline.io.input_grammar.data_converter.compute_names_to_slices(\n                input_names,\n                data,\n            )[0]\n        )\n\n        self.auto_steps = (\n            self.discipline.io.input_grammar.data_converter.convert_array_to_data(\n                steps_opt, names_to_slices\n            )\n        )\n\n        return errors, self.auto_steps\n\n    @contextmanager\n    def __set_zero_cache_tol(self, step: Number | Iterable[Number]) -> None:\n        \"\"\"A context manager to temporary set the discipline cache tolerance to zero.\n\n        Args:\n            step: The differentiation step.\n        \"\"\"\n        cache = self.discipline.cache\n        if cache is None or cache.tolerance < amin(absolute(step)):\n            # The cache cannot mistake a perturbed point for the current one.\n            yield\n        else:\n            old_cache_tol = cache.tolerance\n            cache.tolerance = 0.0\n            yield\n            cache.tolerance = old_cache_tol\n\n    def _prepare_xvect(\n        self,\n        input_names: Iterable[str],\n        data: DisciplineData = READ_ONLY_EMPTY_DICT,\n    ) -> ndarray:\n        \"\"\"Convert an input data mapping into an input array.\n\n        Args:\n            input_names: The names of the inputs to be used for the differentiation.\n            data: The input data mapping.\n                If empty, use the local data of the discipline.\n\n        Returns:\n            The input array.\n        \"\"\"\n        if not data:\n            data = self.discipline.io.data\n\n        return self.discipline.io.input_grammar.data_converter.convert_data_to_array(\n            input_names,\n            data,\n        )\n\n    def compute_approx_jac(\n        self,\n        output_names: Iterable[str],\n        input_names: Iterable[str],\n        x_indices: Sequence[int] = (),\n    ) -> dict[str, dict[str, ndarray]]:\n        \"\"\"Approximate the Jacobian.\n\n        Args:\n            output_names: The names of the outputs to be differentiated.\n            input_names: The names of the inputs used to differentiate the outputs.\n            x_indices: The components of the input vector\n                to be used for the differentiation.\n                If empty, use all the components.\n\n        Returns:\n            The approximated Jacobian.\n        \"\"\"\n        self._create_approximator(output_names, input_names)\n\n        if self.auto_steps and all(key in self.auto_steps for key in input_names):\n            step = (\n                self.discipline.io.input_grammar.data_converter.convert_data_to_array(\n                    input_names,\n                    self.auto_steps,\n                )\n            )\n        else:\n            step = self.step\n\n        x_vect = self._prepare_xvect(input_names, self.discipline.io.data)\n\n        if isinstance(step, Sized) and 1 < len(step) != len(x_vect):\n            msg = f\"Inconsistent step size, expected {x_vect.size} got {len(step)}.\"\n            raise ValueError(msg)\n\n        with self.__set_zero_cache_tol(step):\n            flat_jac = atleast_2d(\n", "expect": "16.6", "note": "DisciplineJacApprox resets the cache tolerance only when it is not smaller than "},
+    {"name": "seeded-C16-11", "file": "utils/derivatives/finite_differences.py", "old": "from numpy import full\nfrom numpy import ndarray\nfrom numpy import tile\nfrom numpy import where\nfrom numpy import zeros\n\nfrom gemseo.core.parallel_execution.callable_parallel_execution import (\n    CallableParallelExecution,\n)\nfrom gemseo.utils.derivatives.approximation_modes import ApproximationMode\nfrom gemseo.utils.derivatives.base_gradient_approximator import BaseGradientApproximator\nfrom gemseo.utils.derivatives.error_estimators import EPSILON\nfrom gemseo.utils.derivatives.error_estimators import compute_best_step\n\n\nclass FirstOrderFD(BaseGradientApproximator):\n    r\"\"\"First-order finite differences approximator.\n\n    .. math::\n\n        \\frac{df(x)}{dx}\\approx\\frac{f(x+\\\\delta x)-f(x)}{\\\\delta x}\n    \"\"\"\n\n    _APPROXIMATION_MODE = ApproximationMode.FINITE_DIFFERENCES\n\n    _DEFAULT_STEP: ClassVar[float] = 1.0e-6\n\n    def _compute_parallel_grad(\n        self,\n        input_values: ndarray,\n        input_perturbations: ndarray,\n        step: float | ndarray,\n        **kwargs: Any,\n    ) -> ndarray:\n        n_perturbations = input_perturbations.shape[1]\n        if step is None:\n            step = self.step\n\n        if not isinstance(step, ndarray):\n            step = full(n_perturbations, step)\n\n        self._function_kwargs = kwargs\n        functions = [self._wrap_function] * (n_perturbations + 1)\n        parallel_execution = CallableParallelExecution(functions, **self._parallel_args)\n\n        perturbated_inputs = [\n            input_perturbations[:, perturbation_index]\n            for perturbation_index in range(n_perturbations)\n        ]\n        initial_and_perturbated_outputs = parallel_execution.execute([\n            input_values,\n            *perturbated_inputs,\n        ])\n\n        gradient = []\n        initial_output = initial_and_perturbated_outputs[0]\n        for perturbation_index in range(n_perturbations):\n            perturbated_output = initial_and_perturbated_outputs[perturbation_index + 1]\n            g_approx = (perturbated_output - initial_output) / step[perturbation_index]\n            gradient.append(g_approx.real)\n\n        return gradient\n\n    def _compute_grad(\n        self,\n        input_values: ndarray,\n        input_perturbations: ndarray,\n        step: float | ndarray,\n        **kwargs: Any,\n    ) -> ndarray:\n        n_perturbations = input_perturbations.shape[1]\n        if step is None:\n            step = self.step\n\n        if not isinstance(step, ndarray):\n            step = full(n_perturbations, step)\n\n        gradient = []\n        initial_output = self.f_pointer(input_values, **kwargs)\n        for perturbation_index in range(n_perturbations):\n            perturbated_output = self.f_pointer(\n                input_perturbations[:, perturbation_index], **kwargs\n            )\n            g_approx = (perturbated_output - initial_output) / step[perturbation_index]\n            gradient.append(g_approx.real)\n\n        return gradient\n\n    def _get_opt_step(\n        self,\n        f_p: ndarray,\n        f_0: ndarray,\n        f_m: ndarray,\n        numerical_error: float = EPSILON,\n    ) -> tuple[ndarray, ndarray]:\n        r\"\"\"Compute the optimal step of a function.\n\n        This function may be a vector function.\n        In this case, take the worst case.\n\n        Args:\n            f_p: The value of the function :math:`f`\n                 at the next step :math:`x+\\\\delta_x`.\n            f_0: The value of the function :math:`f`\n                 at the current step :math:`x`.\n            f_m: The value of the function :math:`f`\n                 at the previous step :math:`x-\\\\delta_x`.\n            numerical_error: The numerical error\n                associated to the calculation of :math:`f`.\n                By default, Machine epsilon (appx 1e-16),\n                but can be higher.\n                when the calculation of :math:`f` requires a numerical resolution.\n\n        Returns:\n            The errors.\n            The optimal steps.\n        \"\"\"\n        n_out = f_p.size\n        if n_out == 1:\n            t_e, c_e, opt_step = compute_best_step(\n                f_p, f_0, f_m, self.step, epsilon_mach=numerical_error\n            )\n            error = 0.0 if t_e is None else t_e + c_e\n        else:\n            errors = zeros(n_out)\n            opt_steps = zeros(n_out)\n            for i in range(n_out):\n                t_e, c_e, opt_steps[i] = compute_best_step(\n                    f_p[i], f_0[i], f_m[i], self.step, epsilon_mach=numerical_error\n                )\n                if t_e is None:\n                    errors[i] = 0.0\n                else:\n                    errors[i] = t_e + c_e\n            max_i = argmax(errors)\n            error = errors[max_i]\n            opt_step = opt_steps[max_i]\n\n        return error, opt_step\n\n    def compute_optimal_step(\n        self,\n        x_vect: ndarray,\n        numerical_error: float = EPSILON,\n        **kwargs,\n    ) -> tuple[ndarray, ndarray]:\n        r\"\"\"Compute the gradient by real step.\n\n        Args:\n            x_vect: The input vector.\n            numerical_error: The numerical error\n                associated to the calculation of :math:`f`.\n                By default, machine epsilon (appx 1e-16),\n                but can be higher.\n                when the calculation of :math:`f` requires a numerical resolution.\n            **kwargs: The additional arguments passed to the function.\n\n        Returns:\n            The optimal steps.\n            The errors.\n        \"\"\"\n        n_dim = len(x_vect)\n        x_p_arr, _ = self.generate_perturbations(n_dim, x_vect)\n        x_m_arr, _ = self.generate_perturbations(n_dim, x_vect, step=-self.step)\n        opt_steps = full(n_dim, self.step)\n        errors = zeros(n_dim)\n        comp_step = self._get_opt_step\n        if self._parallel:\n            self._function_kwargs = kwargs\n            functions = [self._wrap_function] * (n_dim * 2 + 1)\n            parallel_execution = CallableParallelExecution(\n                functions, **self._parallel_args\n            )\n\n            all_x = [x_vect] + [x_p_arr[:, i] for i in range(n_dim)]\n            all_x += [x_m_arr[:, i] for i in range(n_dim)]\n            outputs = parallel_execution.execute(all_x)\n\n            f_0 = outputs[0]\n            for i in range(n_dim):\n                f_p = outputs[i + 1]\n                f_m = outputs[n_dim + i + 1]\n                errs, opt_step = comp_step(\n                    f_p, f_0, f_m, numerical_error=numerical_error\n                )\n                errors[i] = errs\n                opt_steps[i] = opt_step\n        else:\n            f_0 = self.f_pointer(x_vect, **kwargs)\n            for i in range(n_dim):\n                f_p = self.f_pointer(x_p_arr[:, i], **kwargs)\n                f_m = self.f_pointer(x_m_arr[:, i], **kwargs)\n                errs, opt_step = comp_step(\n                    f_p, f_0, f_m, numerical_error=numerical_error\n                )\n                errors[i] = errs\n                opt_steps[i] = opt_step\n        self.step = opt_steps\n        return opt_steps, errors\n\n    def _generate_perturbations(\n        self,\n        input_values: ndarray,\n        input_indices: list[int],\n        step: float,\n    ) -> tuple[ndarray, ndarray]:\n        input_dimension = len(input_values)\n        n_indices = len(input_indices)\n        input_perturbations = (\n            tile(input_values, n_indices).reshape((n_indices, input_dimension)).T\n        )\n        if isinstance(step, ndarray):\n            # One step per input component: keep the ones of the differentiated ones.\n            step = step[input_indices]\n\n        if self._design_space is None:\n            input_perturbations[input_indices, range(n_indices)] += step\n            return input_perturbations, step\n\n        if self._normalize:\n            upper_bounds = self._design_space.normalize_vect(\n                self._design_space.get_upper_bounds()\n            )\n        else:\n            upper_bounds = self._design_space.get_upper_bounds()\n\n", "new": "from numpy import full\nfrom numpy import isinf\nfrom numpy import ndarray\nfrom numpy import tile\nfrom numpy import where\nfrom numpy import zeros\n\nfrom gemseo.core.parallel_execution.callable_parallel_execution import (\n    CallableParallelExecution,\n)\nfrom gemseo.utils.derivatives.approximation_modes import ApproximationMode\nfrom gemseo.utils.derivatives.base_gradient_approximator import BaseGradientApproximator\nfrom gemseo.utils.derivatives.error_estimators import EPSILON\nfrom gemseo.utils.derivatives.error_estimators import compute_best_step\n\n\nclass FirstOrderFD(BaseGradientApproximator):\n    r\"\"\"First-order finite differences approximator.\n\n    .. math::\n\n        \\frac{df(x)}{dx}\\approx\\frac{f(x+\\\\delta x)-f(x)}{\\\\delta x}\n    \"\"\"\n\n    _APPROXIMATION_MODE = ApproximationMode.FINITE_DIFFERENCES\n\n    _DEFAULT_STEP: ClassVar[float] = 1.0e-6\n\n    def _compute_parallel_grad(\n        self,\n        input_values: ndarray,\n        input_perturbations: ndarray,\n        step: float | ndarray,\n        **kwargs: Any,\n    ) -> ndarray:\n        n_perturbations = input_perturbations.shape[1]\n        if step is None:\n            step = self.step\n\n        if not isinstance(step, ndarray):\n            step = full(n_perturbations, step)\n\n        self._function_kwargs = kwargs\n        functions = [self._wrap_function] * (n_perturbations + 1)\n        parallel_execution = CallableParallelExecution(functions, **self._parallel_args)\n\n        perturbated_inputs = [\n            input_perturbations[:, perturbation_index]\n            for perturbation_index in range(n_perturbations)\n        ]\n        initial_and_perturbated_outputs = parallel_execution.execute([\n            input_values,\n            *perturbated_inputs,\n        ])\n\n        gradient = []\n        initial_output = initial_and_perturbated_outputs[0]\n        for perturbation_index in range(n_perturbations):\n            perturbated_output = initial_and_perturbated_outputs[perturbation_index + 1]\n            g_approx = (perturbated_output - initial_output) / step[perturbation_index]\n            gradient.append(g_approx.real)\n\n        return gradient\n\n    def _compute_grad(\n        self,\n        input_values: ndarray,\n        input_perturbations: ndarray,\n        step: float | ndarray,\n        **kwargs: Any,\n    ) -> ndarray:\n        n_perturbations = input_perturbations.shape[1]\n        if step is None:\n            step = self.step\n\n        if not isinstance(step, ndarray):\n            step = full(n_perturbations, step)\n\n        gradient = []\n        initial_output = self.f_pointer(input_values, **kwargs)\n        for perturbation_index in range(n_perturbations):\n            perturbated_output = self.f_pointer(\n                input_perturbations[:, perturbation_index], **kwargs\n            )\n            g_approx = (perturbated_output - initial_output) / step[perturbation_index]\n            gradient.append(g_approx.real)\n\n        return gradient\n\n    def _get_opt_step(\n        self,\n        f_p: ndarray,\n        f_0: ndarray,\n        f_m: ndarray,\n        numerical_error: float = EPSILON,\n    ) -> tuple[ndarray, ndarray]:\n        r\"\"\"Compute the optimal step of a function.\n\n        This function may be a vector function.\n        In this case, take the worst case.\n\n        Args:\n            f_p: The value of the function :math:`f`\n                 at the next step :math:`x+\\\\delta_x`.\n            f_0: The value of the function :math:`f`\n                 at the current step :math:`x`.\n            f_m: The value of the function :math:`f`\n                 at the previous step :math:`x-\\\\delta_x`.\n            numerical_error: The numerical error\n                associated to the calculation of :math:`f`.\n                By default, Machine epsilon (appx 1e-16),\n                but can be higher.\n                when the calculation of :math:`f` requires a numerical resolution.\n\n        Returns:\n            The errors.\n            The optimal steps.\n        \"\"\"\n        n_out = f_p.size\n        if n_out == 1:\n            t_e, c_e, opt_step = compute_best_step(\n                f_p, f_0, f_m, self.step, epsilon_mach=numerical_error\n            )\n            error = 0.0 if t_e is None else t_e + c_e\n        else:\n            errors = zeros(n_out)\n            opt_steps = zeros(n_out)\n            for i in range(n_out):\n                t_e, c_e, opt_steps[i] = compute_best_step(\n                    f_p[i], f_0[i], f_m[i], self.step, epsilon_mach=numerical_error\n                )\n                if t_e is None:\n                    errors[i] = 0.0\n                else:\n                    errors[i] = t_e + c_e\n            max_i = argmax(errors)\n            error = errors[max_i]\n            opt_step = opt_steps[max_i]\n\n        return error, opt_step\n\n    def compute_optimal_step(\n        self,\n        x_vect: ndarray,\n        numerical_error: float = EPSILON,\n        **kwargs,\n    ) -> tuple[ndarray, ndarray]:\n        r\"\"\"Compute the gradient by real step.\n\n        Args:\n            x_vect: The input vector.\n            numerical_error: The numerical error\n                associated to the calculation of :math:`f`.\n                By default, machine epsilon (appx 1e-16),\n                but can be higher.\n                when the calculation of :math:`f` requires a numerical resolution.\n            **kwargs: The additional arguments passed to the function.\n\n        Returns:\n            The optimal steps.\n            The errors.\n        \"\"\"\n        n_dim = len(x_vect)\n        x_p_arr, _ = self.generate_perturbations(n_dim, x_vect)\n        x_m_arr, _ = self.generate_perturbations(n_dim, x_vect, step=-self.step)\n        opt_steps = full(n_dim, self.step)\n        errors = zeros(n_dim)\n        comp_step = self._get_opt_step\n        if self._parallel:\n            self._function_kwargs = kwargs\n            functions = [self._wrap_function] * (n_dim * 2 + 1)\n            parallel_execution = CallableParallelExecution(\n                functions, **self._parallel_args\n            )\n\n            all_x = [x_vect] + [x_p_arr[:, i] for i in range(n_dim)]\n            all_x += [x_m_arr[:, i] for i in range(n_dim)]\n            outputs = parallel_execution.execute(all_x)\n\n            f_0 = outputs[0]\n            for i in range(n_dim):\n                f_p = outputs[i + 1]\n                f_m = outputs[n_dim + i + 1]\n                errs, opt_step = comp_step(\n                    f_p, f_0, f_m, numerical_error=numerical_error\n                )\n                errors[i] = errs\n                opt_steps[i] = opt_step\n        else:\n            f_0 = self.f_pointer(x_vect, **kwargs)\n            for i in range(n_dim):\n                f_p = self.f_pointer(x_p_arr[:, i], **kwargs)\n                f_m = self.f_pointer(x_m_arr[:, i], **kwargs)\n                errs, opt_step = comp_step(\n                    f_p, f_0, f_m, numerical_error=numerical_error\n                )\n                errors[i] = errs\n                opt_steps[i] = opt_step\n        self.step = opt_steps\n        return opt_steps, errors\n\n    def _generate_perturbations(\n        self,\n        input_values: ndarray,\n        input_indices: list[int],\n        step: float,\n    ) -> tuple[ndarray, ndarray]:\n        input_dimension = len(input_values)\n        n_indices = len(input_indices)\n        input_perturbations = (\n            tile(input_values, n_indices).reshape((n_indices, input_dimension)).T\n        )\n        if isinstance(step, ndarray):\n            # One step per input component: keep the ones of the differentiated ones.\n            step = step[input_indices]\n\n        if self._design_space is None:\n            input_perturbations[input_indices, range(n_indices)] += step\n            return input_perturbations, step\n\n        upper_bounds = self._design_space.get_upper_bounds()\n        if self._normalize:\n            # In the normalized space, the finite upper bounds are equal to one.\n            upper_bounds = where(isinf(upper_bounds), upper_bounds, 1.0)\n\n", "expect": "16.4", "note": "FirstOrderFD assumes that every finite upper bound is 1 in the normalized space,"},
     {"name": "seeded-C16-10", "file": "utils/derivatives/complex_step.py", "old": "            raise ValueError(msg)\n        return super().f_gradient(x_vect, step=step, x_indices=x_indices, **kwargs)\n\n", "new": "            raise ValueError(msg)\n        return super().f_gradient(x_vect, step=step, **kwargs)\n\n", "expect": "16.5", "note": "ComplexStep.f_gradient override no longer forwards x_indices to the base impleme"},
     {"name": "centred-steps-not-restricted", "file": CD, "old": "        if isinstance(step, ndarray):\n            # One step per input component: keep the ones of the differentiated ones.\n            step = step[input_indices]\n\n        if self._design_space is None:\n            input_perturbations[input_indices, range(n_indices)] += step\n            input_perturbations[input_indices, range(n_indices, 2 * n_indices)] -= step", "new": "        if self._design_space is None:\n            input_perturbations[input_indices, range(n_indices)] += step\n            input_perturbations[input_indices, range(n_indices, 2 * n_indices)] -= step", "expect": "16.1"},
     {"name": "optimal-step-called-after-the-context", "file": DA, "old": "        with self.__set_zero_cache_tol():\n            steps_opt, errors = self.approximator.compute_optimal_step(\n                x_vect, numerical_error=numerical_error\n            )\n", "new": "        with self.__set_zero_cache_tol():\n            compute_opt_step = self.approximator.compute_optimal_step\n\n        steps_opt, errors = compute_opt_step(x_vect, numerical_error=numerical_error)\n", "expect": "16.6"},
